@@ -568,6 +568,16 @@ def run_flags(ctx, case, tmpdir):
     except Exception as e:   # noqa: BLE001
         res['err'] = type(e).__name__
         res['msg'] = str(e)[:120]
+    # the same data set opened without a chunk store (metadata only) must span the same dumps and refuse the
+    # same incompatible flag streams
+    try:
+        view, cb2, sn = view_l0_capture_stream(ts, cb, 'l0')
+        meta = TelstateDataSource(view, cb2, sn, chunk_store=None, upgrade_flags=case['upgrade'])
+        res['meta_T'] = len(meta.timestamps)
+        res['meta_err'] = None
+    except Exception as e:   # noqa: BLE001
+        res['meta_T'] = None
+        res['meta_err'] = type(e).__name__
     return res
 
 
@@ -623,6 +633,9 @@ def judge_flags(ctx, case, res, replies):
         ctx.tag('flags-shape-mismatch')
         if res['err'] is None:
             return f"flags stream with incompatible channel/baseline shape was accepted (qualifying: {qual})"
+        if res.get('meta_err') is None and 'meta_T' in res:
+            return (f"flags stream with incompatible channel/baseline shape was accepted when the data set is opened "
+                    f"without a chunk store (qualifying: {qual})")
         if not m.startswith('E:'):
             ctx.advise('mirror model accepts a shape mismatch')
         return None
@@ -632,6 +645,9 @@ def judge_flags(ctx, case, res, replies):
     fl_src = res['stored'][chosen]['flags']
     Tf = fl_src.shape[0]
     Tall = max(T, Tf)
+    if 'meta_T' in res and res.get('meta_err') is None and res['meta_T'] != Tall:
+        return (f"opened without a chunk store the data set spans {res['meta_T']} dumps, with data it spans {Tall} "
+                f"(L0 has {T}, the flags stream {Tf})")
     ctx.tag('flags-dumps-' + ('equal' if Tf == T else 'flags-longer' if Tf > T else 'flags-shorter'))
     exp_flags = np.zeros((Tall, F, B), np.uint8)
     exp_flags[:Tf] = fl_src
